@@ -22,8 +22,11 @@ for sid in sorted(os.listdir(root)):
     caught = [c for c in m.get('checks_run', []) if c.get('exit') == 1]
     by = ', '.join(c['check'] for c in caught) or 'MISSED'
     fv = (caught[0]['first_violation'][:110].replace('|', '/') if caught else '')
-    rows.append((sid, m.get('change_summary', ''), m.get('needs_to_manifest', ''), by, (f or {}).get('result', ''), fv))
-print('| seed | change | needs | caught by | first evaluation | first violation reported |')
-print('|---|---|---|---|---|---|')
+    fe = (f or {}).get('result', '')
+    if (f or {}).get('what_was_done'):
+        fe += ': ' + f['what_was_done']
+    rows.append((sid, m.get('change_summary', ''), m.get('needs_to_manifest', ''), by, fe))
+print('| seed | change (by an independent sub-agent) | needs | caught by (now) | first evaluation, and what was added |')
+print('|---|---|---|---|---|')
 for r in rows:
-    print('| ' + ' | '.join(x.replace('\n', ' ') for x in r) + ' |')
+    print('| ' + ' | '.join(x.replace('\n', ' ').replace('|', '/') for x in r) + ' |')
